@@ -71,7 +71,7 @@ from klongpy.types import KGSym, KGFn, KGCall, KGOp, KGAdverb, KGUndefined
 from klongpy.writer import kg_write
 
 from .. import runner
-from ..values import cn, show
+from ..values import cn, show, _promote
 
 PID = 'C08'
 RTOL = 4e-6
@@ -519,7 +519,12 @@ def judge(t, on, ot):
     if not vclose(a, b, RTOL, atol):
         dk = diff_kind(a, b)
         rootop = t[1] if not isinstance(t, str) else None
-        if dk == 'value' and rootop in DISCONT and any(i is not None and not i[1] for i in kinfo):
+        inexact_child = any(i is not None and not i[1] for i in kinfo)
+        if dk == 'value' and rootop in DISCONT and inexact_child:
+            return 'rounding', dk
+        # Power returns an integer when the result is whole: with an operand that already differs by rounding, 81.0
+        # against 81.00000000000001 legitimately differ in kind
+        if dk == 'kind' and rootop == '^' and inexact_child and vclose(_promote(a), _promote(b), RTOL, atol):
             return 'rounding', dk
         return 'value', dk
     if on[2] is None or ot[2] is None:
@@ -555,19 +560,6 @@ def snippet_for(t):
 
 # ---------------------------------------------------------------------------------------------
 # root-cause groups (assigned by inspection of the pinned tree; a finding that fits none is 'unclassified')
-
-def _top_shape(c):
-    """() for a number, (n,) / (n, m) for rectangular numeric lists, None otherwise."""
-    if c[0] in 'ir':
-        return ()
-    if c[0] == 'l':
-        if all(e[0] in 'ir' for e in c[1]):
-            return (len(c[1]),)
-        subs = [_top_shape(e) for e in c[1]]
-        if subs and subs[0] is not None and all(s == subs[0] for s in subs):
-            return (len(c[1]),) + subs[0]
-    return None
-
 
 def _has_kind(c, k):
     if c[0] == 'l':
@@ -940,7 +932,8 @@ def run(cfg):
         'the results of the sub-programs (cancellation), float32 range (|x| > 3.4e38 vs inf, |x| < 1.2e-38 vs 0) counts '
         'as single-precision rounding' % RTOL,
         'a disagreement in the numbers only, at a discontinuous operator (floor, < > =, ^, %, @ # _) one of whose operands '
-        'already differs by rounding between the backends, is no verdict (rounding_through_discontinuity_no_verdict)',
+        'already differs by rounding between the backends, is no verdict (rounding_through_discontinuity_no_verdict); for ^ '
+        'this includes integer-vs-real kind of numerically equal results (Power returns an integer when the result is whole)',
         'obligation 2 (acceptance) is applied to programs of the compiler grammar whose operands conform in shape and '
         'whose sub-programs are numeric; the statement read literally would also demand acceptance of [1 2 3]+[[1 2] [3 4]]',
         'a one-sided exception outside obligation 2 is no verdict ("whenever both return"): see one_sided',
